@@ -363,6 +363,12 @@ func (em *emuEmitter) method(fd *ast.FuncDecl) string {
 		}
 	}
 	body := em.block(fd.Body.List)
+	// a value receiver copies the whole struct - every shared field - when the method is called, before any lock
+	if len(fd.Recv.List) == 1 {
+		if _, isPtr := fd.Recv.List[0].Type.(*ast.StarExpr); !isPtr {
+			body = "Seq (Act (ARd Mode)) (Seq (Act (ARd Conf)) (" + body + "))"
+		}
+	}
 	if em.deferU != "" {
 		body = "Seq (" + body + ") (Act " + em.deferU + ")"
 	}
